@@ -17,7 +17,7 @@ from strawberryfields.utils import post_processing as pp
 
 PROP = "C16"
 LEVEL = "proof"
-COQ_TARGETS = ["C16/Model.vo", "C16/Proofs.vo", "C16/Exec.vo"]
+COQ_TARGETS = ["C16/Model.vo", "C16/Proofs.vo", "C16/ProofsFock.vo", "C16/Exec.vo"]
 COQ_DIRS = ["C16"]
 PROPERTIES_FILE = "Properties/C16.v"
 ALLOWED_AXIOMS = set()
